@@ -140,8 +140,14 @@ theorem C08_hb_is_not_activity (s : Sess) (o : Origin) (ho : o.isHb = true) :
     (s.sendMsg o).loc = s.loc ∧ (s.sendMsg o).rem = s.rem := by
   simp [ho]
 
-/-- … so after a heartbeat at tick `T` (and whatever other heartbeats were written since) an application that stays
-    idle gets the next heartbeat at `T + I` -/
+/-- … on whole histories: deleting the heartbeat messages the application sent itself from a history changes nothing
+    but those very writes — same monitor states, same monitor heartbeats at the same instants, same close, … -/
+theorem C08_hb_is_not_activity_trace (s : Sess) (evs : List Ev) :
+    (s.run evs).dropAppHb = s.dropAppHb.run (evs.filter fun e => e != .sendHb) :=
+  dropAppHb_run evs s
+
+/-- … and after a monitor heartbeat at tick `T` (and whatever other heartbeats were written since) an application that
+    stays idle gets the next heartbeat at `T + I` -/
 theorem C08_hb_then_idle_hb_again (role : Role) (c : Cfg) (hc : wfCfg c = true) (evs : List Ev) (w : Write)
     (hw : w ∈ ((login role c).run evs).writes) (hwo : w.origin = .mon)
     (hlife : w.t + ownInterval role c ≤ ((login role c).run evs).life)
